@@ -298,8 +298,12 @@ func (g *valGen) newClaims(kind string) (jwt.Claims, *signer) {
 		if c.Data != nil {
 			// a data map naming a typed kind would be dispatched to that kind's loader
 			delete(c.Data, "type")
-			if g.rng.Intn(3) == 0 {
+			switch g.rng.Intn(6) {
+			case 0, 1:
 				c.Data["type"] = "my_custom_kind"
+			case 2:
+				// a kind name in another letter case is not that kind: it is a custom kind like any other
+				c.Data["type"] = []string{"Account", "USER", "Operator", "ACTIVATION", "act\u0130vat\u0130on", "Authorization_Response", "Cluster", "User "}[g.rng.Intn(8)]
 			}
 		}
 		cl, s = c, pick("operator", "account", "user", "server", "cluster")
